@@ -1,24 +1,14 @@
-"""Per-property configuration of ./check (suites, Lean modules, evidence texts)."""
-
-COMMON_TB = [
-    "Lean 4.33 kernel (lake build + #print axioms audit; allowed axioms: propext, Classical.choice, Quot.sound)",
-    "hand-written Lean model of the Go code, tied to /repo by differential correspondence on every run (harness built from the working tree with -tags verif)",
-    "Go standard library (path, strings, strconv, sort, bufio) modelled in Lc/Base and diffed against the real library (suite 'base')",
-    "the harness, the lcdriver line protocol and the ./check driver",
-]
-
+"""Per-property configuration of ./check: one file per property in checks/props/Cxx.py
+defining PROP (suites, Lean modules, evidence texts, optional generators) and META
+(manifest texts)."""
+import importlib, os, sys
+_here = os.path.dirname(os.path.abspath(__file__))
+sys.path.insert(0, _here)
+sys.path.insert(0, os.path.join(_here, "props"))
 PROPS = {}
-
-PROPS["C12"] = {
-    "suites": ["base", "c12"],
-    "lean_modules": ["Lc.Props.C12"],
-    "leanchecker": True,
-    "trusted_base": COMMON_TB + [
-        "Lc/Spec/KernelEscape.lean + KernelRender.lean: my transcription of the kernel's mountinfo rendering (seq_escape octal escaping, field layout)",
-    ],
-    "assumptions": [
-        "mountinfo lines are shorter than bufio.Scanner's 64 KiB token limit",
-        "the kernel escapes at least space, tab, newline and backslash in path fields and additionally ',' in overlay option values",
-    ],
-    "rule": "structured stream: random mount tables (1-9 mounts, stacked/nested mountpoints, 0-3 optional fields, overlay options in random order, path elements with spaces/tabs/newlines/backslashes/escape look-alikes) rendered kernel-style; malformed stream: byte mutations of rendered text; plus raw escape strings. A case is non-trivial unless the driver marks it trivial; distinct = distinct case JSON without id.",
-}
+META = {}
+for _f in sorted(os.listdir(os.path.join(_here, "props"))):
+    if _f.endswith(".py") and _f[0] == "C":
+        _m = importlib.import_module(_f[:-3])
+        PROPS[_f[:-3]] = _m.PROP
+        META[_f[:-3]] = _m.META
